@@ -45,25 +45,51 @@ Lemma find_idx_intro {A} (p : nat -> A -> bool) l n x :
   find_idx p l = Some n.
 Proof. intros H1 H2 H3. apply (find_from_intro p l 0%nat n x H1 H2 H3). Qed.
 
-(* the matching loop on a mid-less section, when every unused transceiver still has no mid *)
+(* the matching loop on a mid-less section picks the first unused transceiver of the kind when either
+   every unused transceiver still has no mid (first negotiation) or every transceiver already carries the
+   empty mid (later rounds of a connection without spare transceivers) *)
 Definition pick_pred (u : list nat) (k : kind) : nat -> trx -> bool :=
   fun i t => negb (used_b u i) && kind_eqb (t_kind t) k.
 
-Lemma sr_step_midless ts u sec :
-  str_empty (o_mid sec) = true -> unused_none ts u ->
-  sr_step (ts, u) sec =
-  match find_idx (pick_pred u (o_kind sec)) ts with
-  | Some i => (upd i (set_mid_dir_t (o_mid sec) (o_dir sec)) ts, i :: u)
-  | None => ((ts ++ [mkTrx (o_kind sec) (Some (o_mid sec)) (o_dir sec) false])%list, List.length ts :: u)
-  end.
+Definition all_se (ts : list trx) : Prop := forall t, In t ts -> t_mid t = Some EmptyString.
+Definition good (ts : list trx) (u : list nat) : Prop := unused_none ts u \/ all_se ts.
+
+Lemma find_idx_all_false {A} (p : nat -> A -> bool) l :
+  (forall k x, nth_error l k = Some x -> p k x = false) -> find_idx p l = None.
 Proof.
-  intros Hm Hun. unfold sr_step. cbv beta iota zeta. rewrite Hm.
-  assert (He : find_idx (fun i t => negb (used_b u i) && mid_none t && kind_eqb (t_kind t) (o_kind sec)) ts
-               = find_idx (pick_pred u (o_kind sec)) ts).
-  { apply find_idx_ext. intros k x Hk. unfold pick_pred. destruct (used_b u k) eqn:Eu; [reflexivity|].
-    apply used_b_false in Eu. unfold mid_none. rewrite (Hun k x Hk Eu). reflexivity. }
-  rewrite He. destruct (find_idx (pick_pred u (o_kind sec)) ts) as [i|] eqn:E; [reflexivity|].
-  fold (pick_pred u (o_kind sec)). rewrite E. reflexivity.
+  intros H. destruct (find_idx p l) as [i|] eqn:E; [|reflexivity].
+  destruct (find_idx_some _ _ _ E) as [x [Hx [Hp _]]]. rewrite (H i x Hx) in Hp. discriminate.
+Qed.
+
+Lemma sr_step_pick ts u sec :
+  str_empty (o_mid sec) = true -> good ts u ->
+  exists g : trx -> trx,
+    (forall x, t_kind (g x) = t_kind x /\ t_dir (g x) = o_dir sec) /\
+    (forall i x, nth_error ts i = Some x -> ~ In i u -> t_mid (g x) = Some (o_mid sec)) /\
+    sr_step (ts, u) sec =
+    match find_idx (pick_pred u (o_kind sec)) ts with
+    | Some i => (upd i g ts, i :: u)
+    | None => ((ts ++ [mkTrx (o_kind sec) (Some (o_mid sec)) (o_dir sec) false])%list, List.length ts :: u)
+    end.
+Proof.
+  intros Hm [Hun|Hse].
+  - exists (set_mid_dir_t (o_mid sec) (o_dir sec)). split; [intros x; split; reflexivity|]. split; [intros; reflexivity|].
+    unfold sr_step. cbv beta iota zeta. rewrite Hm.
+    assert (He : find_idx (fun i t => negb (used_b u i) && mid_none t && kind_eqb (t_kind t) (o_kind sec)) ts
+                 = find_idx (pick_pred u (o_kind sec)) ts).
+    { apply find_idx_ext. intros k x Hk. unfold pick_pred. destruct (used_b u k) eqn:Eu; [reflexivity|].
+      apply used_b_false in Eu. unfold mid_none. rewrite (Hun k x Hk Eu). reflexivity. }
+    rewrite He. destruct (find_idx (pick_pred u (o_kind sec)) ts) as [i|] eqn:E; [reflexivity|].
+    fold (pick_pred u (o_kind sec)). rewrite E. reflexivity.
+  - exists (set_dir_t (o_dir sec)). split; [intros x; split; reflexivity|].
+    split.
+    + intros i x Hx _. cbn. rewrite (Hse x (nth_error_In _ _ Hx)). apply str_empty_spec in Hm. rewrite Hm. reflexivity.
+    + unfold sr_step. cbv beta iota zeta. rewrite Hm.
+      assert (He : find_idx (fun i t => negb (used_b u i) && mid_none t && kind_eqb (t_kind t) (o_kind sec)) ts = None).
+      { apply find_idx_all_false. intros k x Hk. unfold mid_none. rewrite (Hse x (nth_error_In _ _ Hk)).
+        rewrite andb_false_r. reflexivity. }
+      rewrite He. fold (pick_pred u (o_kind sec)).
+      destruct (find_idx (pick_pred u (o_kind sec)) ts); reflexivity.
 Qed.
 
 (* tsF extends ts: at least as long, kinds kept, entries marked used kept verbatim *)
@@ -84,42 +110,49 @@ Proof.
 Qed.
 
 Lemma midless_step_facts ts u sec :
-  str_empty (o_mid sec) = true -> unused_none ts u -> used_lt ts u ->
+  str_empty (o_mid sec) = true -> good ts u -> used_lt ts u ->
   let '(ts1, u1) := sr_step (ts, u) sec in
   exists p t, u1 = p :: u /\ nth_error ts1 p = Some t /\
               t_kind t = o_kind sec /\ t_mid t = Some (o_mid sec) /\ t_dir t = o_dir sec /\
-              unused_none ts1 u1 /\ used_lt ts1 u1 /\ ext u ts ts1 /\ ~ In p u /\
+              good ts1 u1 /\ used_lt ts1 u1 /\ ext u ts ts1 /\ ~ In p u /\
               (* p is the first unused transceiver of that kind, before and after *)
               (forall tsF, (forall j t0, nth_error ts1 j = Some t0 -> exists t', nth_error tsF j = Some t' /\ t_kind t' = t_kind t0) ->
-                           find_idx (pick_pred u (o_kind sec)) tsF = Some p).
+                           find_idx (pick_pred u (o_kind sec)) tsF = Some p) /\
+              (all_se ts -> all_se ts1).
 Proof.
-  intros Hm Hun Hlt. rewrite (sr_step_midless ts u sec Hm Hun).
+  intros Hm Hgood Hlt. destruct (sr_step_pick ts u sec Hm Hgood) as [g [Hg [Hgm ->]]].
+  assert (Hm0 : o_mid sec = EmptyString) by (apply str_empty_spec; exact Hm).
   destruct (find_idx (pick_pred u (o_kind sec)) ts) as [i|] eqn:E.
   - destruct (find_idx_some _ _ _ E) as [x [Hi [Hp Hbefore]]].
     unfold pick_pred in Hp. apply andb_true_iff in Hp as [Hu Hk]. apply negb_true_iff in Hu. apply used_b_false in Hu.
-    apply kind_eqb_spec in Hk.
-    exists i, (set_mid_dir_t (o_mid sec) (o_dir sec) x). split; [reflexivity|].
-    split; [apply nth_upd_same; exact Hi|]. split; [exact Hk|]. split; [reflexivity|]. split; [reflexivity|].
-    split; [|split; [|split; [|split]]].
-    + intros j t Hj Hnj. apply nth_upd_inv in Hj. destruct Hj as [[-> _]|[Hne Hj]].
-      * exfalso. apply Hnj. left. reflexivity.
-      * apply (Hun j t Hj). intros Hin. apply Hnj. right. exact Hin.
+    apply kind_eqb_spec in Hk. destruct (Hg x) as [Hgk Hgd].
+    exists i, (g x). split; [reflexivity|].
+    split; [apply nth_upd_same; exact Hi|]. split; [congruence|]. split; [apply (Hgm i x Hi Hu)|]. split; [exact Hgd|].
+    assert (Hse_keep : all_se ts -> all_se (upd i g ts)).
+    { intros Hse t Ht. apply In_nth_error in Ht as [j Hj]. apply nth_upd_inv in Hj.
+      destruct Hj as [[-> [x' [Hx' ->]]]|[_ Hj]].
+      - rewrite (Hgm i x' Hx' Hu). rewrite Hm0. reflexivity.
+      - apply Hse. eapply nth_error_In; eauto. }
+    split; [|split; [|split; [|split; [|split; [|exact Hse_keep]]]]].
+    + destruct Hgood as [Hun|Hse]; [left|right; apply Hse_keep; exact Hse].
+      * intros j t Hj Hnj. apply nth_upd_inv in Hj. destruct Hj as [[-> _]|[Hne Hj]].
+        -- exfalso. apply Hnj. left. reflexivity.
+        -- apply (Hun j t Hj). intros Hin. apply Hnj. right. exact Hin.
     + intros j [<-|Hj]; rewrite upd_length; [apply nth_error_Some; congruence|apply Hlt; exact Hj].
     + split.
       * intros j t Hj. destruct (Nat.eq_dec i j) as [->|Hne].
-        -- rewrite Hi in Hj. injection Hj as <-. eexists. split; [apply nth_upd_same; exact Hi|reflexivity].
+        -- rewrite Hi in Hj. injection Hj as <-. eexists. split; [apply nth_upd_same; exact Hi|exact Hgk].
         -- exists t. rewrite nth_upd_other by exact Hne. auto.
       * intros j t Hj Hn. rewrite nth_upd_other; [exact Hn|intros ->; contradiction].
     + exact Hu.
-    + intros tsF HF. destruct (HF i _ (nth_upd_same _ _ _ _ Hi)) as [t' [Ht' Hk']]. cbn in Hk'.
+    + intros tsF HF. destruct (HF i _ (nth_upd_same _ _ _ _ Hi)) as [t' [Ht' Hk']].
       apply (find_idx_intro _ _ i t' Ht').
       * unfold pick_pred. apply andb_true_iff. split; [apply negb_true_iff; apply used_b_false; exact Hu|].
         apply kind_eqb_spec. congruence.
       * intros j y Hj Hy.
         assert (Hjl : (j < List.length ts)%nat) by (assert (i < List.length ts)%nat by (apply nth_error_Some; congruence); lia).
         destruct (nth_error ts j) as [y0|] eqn:Ey0; [|apply nth_error_None in Ey0; lia].
-        assert (Hy1 : nth_error (upd i (set_mid_dir_t (o_mid sec) (o_dir sec)) ts) j = Some y0)
-          by (rewrite nth_upd_other; [exact Ey0|lia]).
+        assert (Hy1 : nth_error (upd i g ts) j = Some y0) by (rewrite nth_upd_other; [exact Ey0|lia]).
         destruct (HF j y0 Hy1) as [y' [Hy' Hky]]. rewrite Hy in Hy'. injection Hy' as <-.
         pose proof (Hbefore j y0 Ey0 Hj) as Hpf. unfold pick_pred in *. rewrite Hky. exact Hpf.
   - set (nt := mkTrx (o_kind sec) (Some (o_mid sec)) (o_dir sec) false).
@@ -128,12 +161,15 @@ Proof.
     assert (Hnu : ~ In (List.length ts) u) by (intros Hin; apply Hlt in Hin; lia).
     exists (List.length ts), nt. split; [reflexivity|]. split; [exact Hlast|].
     split; [reflexivity|]. split; [reflexivity|]. split; [reflexivity|].
-    split; [|split; [|split; [|split]]].
-    + intros j t Hj Hnj. destruct (Nat.lt_ge_cases j (List.length ts)) as [Hl|Hg].
-      * rewrite nth_error_app1 in Hj by exact Hl. apply (Hun j t Hj). intros Hin. apply Hnj. right. exact Hin.
-      * assert (j = List.length ts).
-        { assert (nth_error (ts ++ [nt]) j <> None) by congruence. apply nth_error_Some in H. rewrite app_length in H. cbn in H. lia. }
-        subst j. exfalso. apply Hnj. left. reflexivity.
+    assert (Hse_keep : all_se ts -> all_se (ts ++ [nt])).
+    { intros Hse t Ht. apply in_app_or in Ht as [Ht|[<-|[]]]; [apply Hse; exact Ht|cbn; rewrite Hm0; reflexivity]. }
+    split; [|split; [|split; [|split; [|split; [|exact Hse_keep]]]]].
+    + destruct Hgood as [Hun|Hse]; [left|right; apply Hse_keep; exact Hse].
+      * intros j t Hj Hnj. destruct (Nat.lt_ge_cases j (List.length ts)) as [Hl|Hge].
+        -- rewrite nth_error_app1 in Hj by exact Hl. apply (Hun j t Hj). intros Hin. apply Hnj. right. exact Hin.
+        -- assert (j = List.length ts).
+           { assert (nth_error (ts ++ [nt]) j <> None) by congruence. apply nth_error_Some in H. rewrite app_length in H. cbn in H. lia. }
+           subst j. exfalso. apply Hnj. left. reflexivity.
     + intros j [<-|Hj]; rewrite app_length; cbn; [lia|apply Hlt in Hj; lia].
     + split.
       * intros j t Hj. exists t. split; [|reflexivity]. rewrite nth_error_app1; [exact Hj|apply nth_error_Some; congruence].
@@ -151,18 +187,18 @@ Proof.
 Qed.
 
 Lemma midless_fold_ext : forall todo ts u,
-  wfB todo -> unused_none ts u -> used_lt ts u ->
+  wfB todo -> good ts u -> used_lt ts u ->
   let '(ts', u') := fold_left sr_step todo (ts, u) in
-  ext u ts ts' /\ (forall i, In i u -> In i u').
+  ext u ts ts' /\ (forall i, In i u -> In i u') /\ (all_se ts -> all_se ts').
 Proof.
   induction todo as [|sec r IH]; intros ts u Hwf Hun Hlt; cbn [fold_left]; [split; [apply ext_refl|auto]|].
   inversion Hwf as [|? ? Hm Hr]; subst.
   pose proof (midless_step_facts ts u sec Hm Hun Hlt) as Hs.
   destruct (sr_step (ts, u) sec) as [ts1 u1].
-  destruct Hs as [p [t [-> [_ [_ [_ [_ [Hun1 [Hlt1 [Hext [_ _]]]]]]]]]]].
+  destruct Hs as [p [t [-> [_ [_ [_ [_ [Hun1 [Hlt1 [Hext [_ [_ Hse1]]]]]]]]]]]].
   pose proof (IH ts1 (p :: u) Hr Hun1 Hlt1) as H2.
-  destruct (fold_left sr_step r (ts1, p :: u)) as [ts' u']. destruct H2 as [He Hsub].
-  split; [|intros i Hi; apply Hsub; right; exact Hi].
+  destruct (fold_left sr_step r (ts1, p :: u)) as [ts' u']. destruct H2 as [He [Hsub Hg]].
+  split; [|split; [intros i Hi; apply Hsub; right; exact Hi|auto]].
   apply (ext_trans u (p :: u) ts ts1 ts'); [intros i Hi; right; exact Hi|exact Hext|exact He].
 Qed.
 
@@ -172,7 +208,7 @@ Definition picked (tsF : list trx) (i : nat) (sec : osec) : Prop :=
 (* lock-step: the answer's matching, run on any extension of the final transceiver list, picks exactly the
    transceivers the matching loop bound to the sections *)
 Lemma lockstep : forall todo ts u,
-  wfB todo -> unused_none ts u -> used_lt ts u ->
+  wfB todo -> good ts u -> used_lt ts u ->
   let '(ts', u') := fold_left sr_step todo (ts, u) in
   forall tsF, ext u' ts' tsF ->
   exists idx, amatch tsF u todo = Some idx /\ Forall2 (picked tsF) idx todo.
@@ -182,10 +218,10 @@ Proof.
   - inversion Hwf as [|? ? Hm Hr]; subst.
     pose proof (midless_step_facts ts u sec Hm Hun Hlt) as Hs.
     destruct (sr_step (ts, u) sec) as [ts1 u1].
-    destruct Hs as [p [t [-> [Hp [Hk [Hmid [Hd [Hun1 [Hlt1 [Hext [Hnu Hfind]]]]]]]]]]].
+    destruct Hs as [p [t [-> [Hp [Hk [Hmid [Hd [Hun1 [Hlt1 [Hext [Hnu [Hfind _]]]]]]]]]]]].
     pose proof (IH ts1 (p :: u) Hr Hun1 Hlt1) as H2.
     pose proof (midless_fold_ext r ts1 (p :: u) Hr Hun1 Hlt1) as H3.
-    destruct (fold_left sr_step r (ts1, p :: u)) as [ts' u']. destruct H3 as [He Hsub].
+    destruct (fold_left sr_step r (ts1, p :: u)) as [ts' u']. destruct H3 as [He [Hsub _]].
     intros tsF HF. destruct (H2 tsF HF) as [idx [Ham Hall]].
     assert (Hchain : ext (p :: u) ts1 tsF) by (apply (ext_trans (p :: u) u' ts1 ts' tsF); auto).
     exists (p :: idx). split.
@@ -195,26 +231,21 @@ Proof.
       apply (proj2 Hchain p t); [left; reflexivity|exact Hp].
 Qed.
 
-(* every transceiver of the state still has no mid: a fresh connection with any pre-added transceivers *)
-Definition all_none (s : st) : Prop := forall t, In t (s_trx s) -> t_mid t = None.
-
-Theorem midless_first_negotiation c s o changed a :
-  wfB (f_secs o) -> all_none s -> s_remote s = None ->
-  create_answer c (set_remote c s o changed) = AOk a ->
+Definition midless_facts (o : offer) (a : answer) : Prop :=
   Forall2 (fun x sec => a_kind x = o_kind sec /\ a_mid x = EmptyString /\ dir_compat (o_dir sec) (a_dir x) = true)
           (a_secs a) (f_secs o).
+
+(* core: any state whose transceiver list is the result of the matching loop on the stored mid-less offer,
+   started from a list in which the loop picks "first unused of the kind" *)
+Lemma midless_core c s1 ts o a :
+  wfB (f_secs o) -> good ts [] ->
+  s_trx s1 = sr_pass ts (f_secs o) -> s_remote s1 = Some o ->
+  create_answer c s1 = AOk a -> midless_facts o a.
 Proof.
-  intros Hwf Hnone Hrem H.
-  assert (Hs1 : set_remote c s o changed = mkSt (sr_pass (s_trx s) (f_secs o)) (new_role c (s_role s) o) (s_local s) (Some o))
-    by (unfold set_remote; rewrite Hrem; reflexivity).
-  rewrite Hs1 in H. clear Hs1.
-  remember (mkSt (sr_pass (s_trx s) (f_secs o)) (new_role c (s_role s) o) (s_local s) (Some o)) as s1 eqn:Es1.
-  assert (Htrx : s_trx s1 = fst (fold_left sr_step (f_secs o) (s_trx s, []))) by (subst s1; reflexivity).
-  assert (Hr : s_remote s1 = Some o) by (subst s1; reflexivity).
-  assert (Hun : unused_none (s_trx s) []) by (intros i t Hi _; apply Hnone; eapply nth_error_In; eauto).
-  assert (Hlt : used_lt (s_trx s) []) by (intros i []).
-  pose proof (lockstep (f_secs o) (s_trx s) [] Hwf Hun Hlt) as HL.
-  destruct (fold_left sr_step (f_secs o) (s_trx s, [])) as [ts' u'] eqn:Ef. cbn [fst] in Htrx.
+  intros Hwf Hgood Htrx Hr H. unfold sr_pass in Htrx.
+  assert (Hlt : used_lt ts []) by (intros i []).
+  pose proof (lockstep (f_secs o) ts [] Hwf Hgood Hlt) as HL.
+  destruct (fold_left sr_step (f_secs o) (ts, [])) as [ts' u'] eqn:Ef. cbn [fst] in Htrx.
   destruct (HL ts' (ext_refl _ _)) as [idx [Ham Hall]].
   unfold create_answer in H. rewrite Hr, Htrx in H.
   destruct ts' as [|t0 tr] eqn:Ets; [discriminate|]. rewrite <- Ets in *.
@@ -233,25 +264,113 @@ Proof.
   { clear - Hpre Hwf. induction Hpre as [|x sec l l' [Hk [Hm Hd]] _ IH]; [constructor|].
     inversion Hwf as [|? ? Hm0 Hr]; subst. constructor; [|apply IH; exact Hr].
     apply str_empty_spec in Hm0. repeat split; congruence. }
-  apply finish_forall2; [|exact Hfin]. intros x sec [Hk [Hm Hd]]. cbn. auto.
+  unfold midless_facts. apply finish_forall2; [|exact Hfin]. intros x sec [Hk [Hm Hd]]. cbn. auto.
 Qed.
 
-Lemma fresh_all_none pre : all_none (fold_left (fun s kd => add_transceiver s (fst kd) (snd kd)) pre st_init) /\
-                           s_remote (fold_left (fun s kd => add_transceiver s (fst kd) (snd kd)) pre st_init) = None.
+(* the states from which mid-less negotiations are coherent: no transceiver has a mid yet (fresh connection
+   with any pre-added transceivers), or every transceiver carries the empty mid (what mid-less rounds leave
+   behind when no pre-added transceiver stayed unmatched) *)
+Definition all_none (s : st) : Prop := forall t, In t (s_trx s) -> t_mid t = None.
+Definition midless_state (s : st) : Prop := all_none s \/ all_se (s_trx s).
+
+Lemma hr_pass_good ts secs : (forall t, In t ts -> t_mid t = None) \/ all_se ts -> good (hr_pass ts secs) [].
 Proof.
-  assert (H : all_none st_init /\ s_remote st_init = None) by (split; [intros t []|reflexivity]).
+  intros [Hn|Hse]; [left|right].
+  - intros i t Hi _. destruct (hr_pass_shape _ _ _ _ Hi) as [t0 [H0 [_ Hm]]]. rewrite Hm. apply Hn. eapply nth_error_In; eauto.
+  - intros t Ht. apply In_nth_error in Ht as [i Hi]. destruct (hr_pass_shape _ _ _ _ Hi) as [t0 [H0 [_ Hm]]].
+    rewrite Hm. apply Hse. eapply nth_error_In; eauto.
+Qed.
+
+Lemma midless_state_good s : midless_state s -> good (s_trx s) [].
+Proof.
+  intros [Hn|Hse]; [left|right; exact Hse]. intros i t Hi _. apply Hn. eapply nth_error_In; eauto.
+Qed.
+
+(* one processed round (first offer, or a changed re-offer) *)
+Theorem midless_negotiation c s o changed a :
+  wfB (f_secs o) -> midless_state s -> applied s changed ->
+  create_answer c (set_remote c s o changed) = AOk a -> midless_facts o a.
+Proof.
+  intros Hwf Hst Happ H. unfold set_remote in H.
+  destruct (s_remote s) as [prev|] eqn:Er.
+  - destruct Happ as [Hn| ->]; [congruence|].
+    match type of H with create_answer _ ?s1 = _ => refine (midless_core c s1 (hr_pass (s_trx s) (f_secs o)) o a Hwf _ eq_refl eq_refl H) end.
+    apply hr_pass_good. exact Hst.
+  - match type of H with create_answer _ ?s1 = _ => refine (midless_core c s1 (s_trx s) o a Hwf _ eq_refl eq_refl H) end.
+    apply midless_state_good. exact Hst.
+Qed.
+
+(* the unchanged re-offer right after a processed round: the stored transceivers are reused as they are *)
+Theorem midless_unchanged c s o changed a :
+  wfB (f_secs o) -> midless_state s -> applied s changed ->
+  create_answer c (set_remote c (fst (negotiate c s o changed)) o false) = AOk a -> midless_facts o a.
+Proof.
+  intros Hwf Hst Happ H.
+  set (s1 := set_remote c s o changed) in *.
+  assert (Hs1 : exists ts, good ts [] /\ s_trx s1 = sr_pass ts (f_secs o) /\ s_remote s1 = Some o).
+  { unfold s1, set_remote. destruct (s_remote s) as [prev|] eqn:Er.
+    - destruct Happ as [Hn| ->]; [congruence|]. exists (hr_pass (s_trx s) (f_secs o)).
+      split; [apply hr_pass_good; exact Hst|split; reflexivity].
+    - exists (s_trx s). split; [apply midless_state_good; exact Hst|split; reflexivity]. }
+  destruct Hs1 as [ts [Hg [Htrx Hr]]].
+  assert (Hn : s_trx (fst (negotiate c s o changed)) = s_trx s1 /\ s_remote (fst (negotiate c s o changed)) = s_remote s1).
+  { unfold negotiate. fold s1. cbn [fst]. destruct (create_answer c s1); split; reflexivity. }
+  destruct Hn as [Hn1 Hn2].
+  match type of H with create_answer _ ?s2 = _ => refine (midless_core c s2 ts o a Hwf Hg _ _ H) end.
+  - unfold set_remote. rewrite Hn2, Hr. cbn [s_trx]. rewrite Hn1. exact Htrx.
+  - unfold set_remote. rewrite Hn2, Hr. reflexivity.
+Qed.
+
+(* the "every transceiver carries the empty mid" state is kept by mid-less rounds, and holds from the
+   start for a connection without pre-added transceivers *)
+Lemma sr_pass_all_se ts secs : wfB secs -> all_se ts -> all_se (sr_pass ts secs).
+Proof.
+  intros Hwf Hse. unfold sr_pass.
+  assert (Hlt : used_lt ts []) by (intros i []).
+  pose proof (midless_fold_ext secs ts [] Hwf (or_intror Hse) Hlt) as H.
+  destruct (fold_left sr_step secs (ts, [])) as [ts' u']. destruct H as [_ [_ Hg]]. exact (Hg Hse).
+Qed.
+
+Theorem all_se_negotiate c s o changed :
+  wfB (f_secs o) -> all_se (s_trx s) -> all_se (s_trx (fst (negotiate c s o changed))).
+Proof.
+  intros Hwf Hse.
+  assert (H1 : all_se (s_trx (set_remote c s o changed))).
+  { unfold set_remote. destruct (s_remote s); [destruct changed|]; cbn [s_trx]; auto.
+    - apply sr_pass_all_se; [exact Hwf|]. destruct (hr_pass_good (s_trx s) (f_secs o) (or_intror Hse)) as [Hun|H]; [|exact H].
+      intros t Ht. apply In_nth_error in Ht as [i Hi]. destruct (hr_pass_shape _ _ _ _ Hi) as [t0 [H0 [_ Hm]]].
+      rewrite Hm. apply Hse. eapply nth_error_In; eauto.
+    - apply sr_pass_all_se; assumption. }
+  unfold negotiate. cbn [fst]. destruct (create_answer c (set_remote c s o changed)); exact H1.
+Qed.
+
+Lemma all_se_init : all_se (s_trx st_init).
+Proof. intros t []. Qed.
+
+From RV Require Import Proofs.AnswerRounds.
+(* first negotiation of a fresh connection with any pre-added transceivers *)
+Lemma fresh_all_none pre : all_none (fresh pre) /\ s_remote (fresh pre) = None.
+Proof.
+  unfold fresh. assert (H : all_none st_init /\ s_remote st_init = None) by (split; [intros t []|reflexivity]).
   revert H. generalize st_init. induction pre as [|[k d] r IH]; intros s [H1 H2]; cbn [fold_left]; [auto|].
   apply IH. split; [|exact H2]. intros t Ht. unfold add_transceiver in Ht. cbn [s_trx] in Ht.
   apply in_app_or in Ht as [Ht|[<-|[]]]; [apply H1; exact Ht|reflexivity].
 Qed.
 
-From RV Require Import Proofs.AnswerRounds.
 Theorem midless_first_fresh c pre o changed a :
   wfB (f_secs o) ->
-  create_answer c (set_remote c (fresh pre) o changed) = AOk a ->
-  Forall2 (fun x sec => a_kind x = o_kind sec /\ a_mid x = EmptyString /\ dir_compat (o_dir sec) (a_dir x) = true)
-          (a_secs a) (f_secs o).
+  create_answer c (set_remote c (fresh pre) o changed) = AOk a -> midless_facts o a.
 Proof.
   intros Hwf H. destruct (fresh_all_none pre) as [H1 H2].
-  exact (midless_first_negotiation c (fresh pre) o changed a Hwf H1 H2 H).
+  apply (midless_negotiation c (fresh pre) o changed a Hwf (or_introl H1) (or_introl H2) H).
+Qed.
+
+(* every round of a connection without pre-added transceivers that only ever receives mid-less offers *)
+Theorem midless_all_rounds c : forall rs s,
+  all_se (s_trx s) -> Forall (fun r => wfB (f_secs (fst r))) rs ->
+  Forall (fun x => let '(s', o, ch) := x in wfB (f_secs o) /\ midless_state s') (trace c s rs).
+Proof.
+  induction rs as [|[o ch] r IH]; intros s Hse Hwf; cbn [trace]; [constructor|].
+  inversion Hwf as [|? ? Hw Hr]; subst. cbn [fst] in Hw.
+  constructor; [split; [exact Hw|right; exact Hse]|]. apply IH; [apply all_se_negotiate; assumption|exact Hr].
 Qed.
